@@ -145,7 +145,8 @@ def run(ctx):
     judge(run_worker(dict(job, threads=8)), "8 threads over the shared pool")
     ncfg = 0
     for env, enc, pre, only_auth in (({"PYTHONHASHSEED": "7"}, "ascii", [], True), ({"LC_ALL": "C"}, "latin-1", ["cryptography.x509", "ssl", "json", "decimal"], False),
-                                     ({"PYTHONHASHSEED": "random", "TZ": "Asia/Tokyo"}, "utf-8", ["cryptography.hazmat.backends", "hashlib"], False)):
+                                     ({"PYTHONHASHSEED": "random", "TZ": "Asia/Tokyo"}, "utf-8", ["cryptography.hazmat.backends", "hashlib"], False),
+                                     ({"PYTHONWARNINGS": "error"}, "utf-8", [], False)):
         sub = dict(job, histories=hists[: (10 if ctx.quick else 100)] + hists[-2:], preimport=pre, only_auth=only_auth)
         saved = hists
         res = run_worker(sub, env=env, stdout_enc=enc)
